@@ -1185,6 +1185,14 @@ class Symbolic(
           (value.sym_parent is not self
            or root_path != value.sym_path)):
         value = value.clone()
+      elif (value.sym_parent is None
+            and self._sym_parent_for_children() is None
+            and value.sym_path and root_path != value.sym_path):
+        # NOTE: the attribute container of an object under construction has
+        # no parent to hand to its children yet. A value that already sits at
+        # another location of this container (the same object passed for two
+        # arguments) is recognized by its path.
+        value = value.clone()
 
     if isinstance(value, TopologyAware):
       value.sym_setpath(utils.KeyPath(key, self.sym_path))
